@@ -13,6 +13,7 @@ fn main() {
     };
     let mut seed: u64 = std::env::var("VERIF_SEED").ok().and_then(|s| s.parse().ok()).unwrap_or(1);
     let mut replay = None;
+    let mut from_fuzz: Option<String> = None;
     let mut threads = std::thread::available_parallelism().map(|n| n.get()).unwrap_or(8).min(16);
     let mut i = 2;
     while i < args.len() {
@@ -29,6 +30,10 @@ fn main() {
                 i += 1;
                 replay = Some(args[i].clone());
             }
+            "--from-fuzz" => {
+                i += 1;
+                from_fuzz = Some(args[i].clone());
+            }
             "--threads" => {
                 i += 1;
                 threads = args[i].parse().unwrap_or(threads);
@@ -42,8 +47,14 @@ fn main() {
     if id == "selftest" {
         std::process::exit(mvh::selftest::run());
     }
+    if id == "corpus" {
+        std::process::exit(mvh::corpus::write(&cfg.verif_dir));
+    }
     for c in mvh::checks::all() {
         if c.id() == id {
+            if let Some(f) = &from_fuzz {
+                std::process::exit(mvh::runner::from_fuzz_input(c.as_ref(), &cfg, f));
+            }
             std::process::exit(run_check(c.as_ref(), &cfg));
         }
     }
